@@ -1034,6 +1034,22 @@ func (x *c17ctx) tokCase(tag string, toks []c17tk, idx []int) {
 	}
 	v, reason := c17tokVerdict(toks, idx)
 	if v == c17Undef {
+		quotes := 0
+		for _, i := range idx {
+			if toks[i].text == `"` {
+				quotes++
+			}
+		}
+		if quotes >= 2 {
+			// two lone quote tokens pair up into one string literal: the token classes do not
+			// describe the string any more (it may well be a valid call); never judged
+			if acc {
+				x.count("paired-quote-tokens:accepted")
+			} else {
+				x.count("paired-quote-tokens:rejected")
+			}
+			return
+		}
 		if acc {
 			x.count("outside-grammar:accepted")
 			x.r.Sample(map[string]string{"part": "tok", "outside_grammar_accepted": src})
@@ -1047,7 +1063,7 @@ func (x *c17ctx) tokCase(tag string, toks []c17tk, idx []int) {
 }
 
 func (x *c17ctx) partTokens() {
-	fullLen, coreLen := x.r.Pick(5, 6), x.r.Pick(6, 7)
+	fullLen, coreLen := x.r.Pick(4, 6), x.r.Pick(6, 7)
 	x.r.Set("tok_bound", fmt.Sprintf("all token strings of <=%d tokens over %d tokens and of <=%d tokens over the %d core tokens", fullLen, len(c17tokFull), coreLen, c17coreN))
 	if x.r.Replaying() {
 		rc := x.r.ReplayCase()
